@@ -89,7 +89,15 @@ def mutants(argv, seeded=False):
     for prop, name, patch in items:
         tmp = _scratch_copy()
         try:
-            _apply(tmp, patch)
+            try:
+                _apply(tmp, patch)
+            except RuntimeError as e:
+                # the tree moved on under the patch (e.g. a repair commit touched the same lines): say so and go on
+                results.append({'mutant': name, 'property': prop, 'caught': False, 'rc': None, 'tests': None,
+                                'wall_s': 0.0, 'signatures': [], 'stale': str(e)[:200]})
+                print(f'STALE  {name}: {str(e)[:160]}')
+                sys.stdout.flush()
+                continue
             tests = None
             if a.with_tests:
                 ok, tail = _run_tests(tmp)
